@@ -17,19 +17,28 @@ EXHAUSTIVE_PARTS = ["every name length 1..76 x two fixed mixed texts", "every of
 
 def gen(tier, rng):
     n = {"quick": 5000, "search": 20000, "thorough": 100000}[tier]
-    return hdrgen.hval_cases(rng, n, op="hvalrt")
+    from tools import mboxgen
+    # display names in structured fields (phrase / quoted-string / encoded-word readers of the C17 driver)
+    names = mboxgen.mbox_cases(rng, {"quick": 300, "search": 1000, "thorough": 6000}[tier])
+    return names + hdrgen.hval_cases(rng, n, op="hvalrt") + hdrgen.cdisp_cases(rng, {"quick": 200, "search": 1000, "thorough": 5000}[tier])
 
 
 nontrivial = c02.nontrivial
 
 
 def shrinkable(case):
-    return [2]
+    return [3] if case.startswith("typed") else [1] if case.startswith("mbox") else [2]
 
 
 def distribution(cases):
     d = {"needs_encoding": 0, "plain": 0, "with_double_space": 0, "with_encoded_word_lookalike": 0}
     for c in cases:
+        if c.startswith("typed"):
+            d["content_disposition"] = d.get("content_disposition", 0) + 1
+            continue
+        if c.startswith("mbox"):
+            d["display_name"] = d.get("display_name", 0) + 1
+            continue
         v = unhex(c.split("\t")[2])
         d["needs_encoding" if any(b > 126 or b < 32 for b in v) else "plain"] += 1
         if b"  " in v:
